@@ -491,4 +491,64 @@ def run (fixed : Bool) (isLazy : Bool) (outcomes : List Outcome) (ops : List Op)
     | (r', _, .panic) => { build := .hang, buildAttempts := r'.made, evs := [] }
 
 end E2E
+/-! ### the same channel against a real listening socket (`Endpoint::connect` / `connect_lazy`) -/
+namespace Net
+open ErrChain
+
+/-- The network as the script drives it. `alive` is the connection whose peer is still there,
+`aliveGen` the generation of the server holding it. -/
+structure W where
+  up : Bool
+  gen : Nat
+  alive : Option Nat
+  aliveGen : Nat
+deriving DecidableEq, Repr
+
+/-- What the quiescent network answers: an attempt connects iff a server is listening. -/
+def W.world (w : W) : E2E.World :=
+  { outcomes := if w.up then [.accept] else [], alive := w.alive }
+
+def W.env (w : W) : NOp → W
+  | .up => if w.up then w else { w with up := true, gen := w.gen + 1 }
+  | .down => { w with up := false, alive := none }
+  | .call => w
+
+/-- The status of a refused connection: the OS error (`ECONNREFUSED`, `ENOENT`, …) inside the
+transport's own error type, wrapped by `Connector::call` and `MakeSendRequestService`. Its class
+does not depend on the kind (`C14_attempt_error_unavailable`). -/
+def refusedCode : Nat :=
+  ErrClass.fromError (ErrClass.attemptChain true true [.custom 0, .io .connectionRefused])
+
+/-- One call at a quiescent point: what the caller sees, and the state and network after it. -/
+def callStep (r : R) (w : W) : NRes × R × W :=
+  match serve r (E2E.answersFor w.world r) with
+  | (r', _, .resp c) =>
+    (.resp (if w.alive = some c then w.aliveGen else w.gen), r',
+      { w with alive := some c, aliveGen := if w.alive = some c then w.aliveGen else w.gen })
+  | (r', _, .err _) => (.error refusedCode, r', { w with alive := none })
+  | (r', _, .closed _) => (.garbled, r', w)
+  | (r', _, .hang) => (.hang, r', w)
+  | (r', _, .panic) => (.garbled, r', w)
+
+def runOps (r : R) (w : W) : List NOp → List NRes
+  | [] => []
+  | .up :: ops => runOps r (w.env .up) ops
+  | .down :: ops => runOps r (w.env .down) ops
+  | .call :: ops =>
+    match callStep r w with
+    | (res, r', w') => res :: runOps r' w' ops
+
+/-- `Endpoint::connect_lazy()` / `Endpoint::connect()` after the environment's steps `pre`, then
+the script `post`. -/
+def run (isLazy : Bool) (pre post : List NOp) : NTrace :=
+  let w : W := pre.foldl W.env { up := false, gen := 0, alive := none, aliveGen := 0 }
+  if isLazy then { build := .ok, evs := runOps (R.init true) w post }
+  else
+    match connectEager (E2E.answersFor w.world (R.init false)) with
+    | (r', _, .ready) => { build := .ok, evs := runOps r' { w with alive := some r'.made, aliveGen := w.gen } post }
+    | (_, _, .failed _) => { build := .error refusedCode, evs := [] }
+    | (_, _, .pending) => { build := .hang, evs := [] }
+    | (_, _, .panic) => { build := .hang, evs := [] }
+
+end Net
 end Reconnect
